@@ -583,7 +583,7 @@ func C17(tier string) int {
 	c.Merge(l)
 	return c.Finish(report.FinishOpts{
 		Tier: tier, Level: "exploration", EvalCounter: "calls",
-		Rule: fmt.Sprintf("E6: for every type with Copy() in schema/lang (found by listing, fields found by reflection): zero value, one-hot per field per menu value, all fields populated, nil/empty/1/2-element containers, nested nodes to depth %d; oracle: no panic, canonical deep equality incl. unexported fields (nil==empty), no shared map/slice backing array/struct pointer (stopping at constraints below the root, addresses, cty), mutation probes both ways; a struct field the generator cannot populate is reported; non-trivial = value has at least one mutable container", depth),
+		Rule:         fmt.Sprintf("E6: for every type with Copy() in schema/lang (found by listing, fields found by reflection): zero value, one-hot per field per menu value, all fields populated, nil/empty/1/2-element containers, nested nodes to depth %d; oracle: no panic, canonical deep equality incl. unexported fields (nil==empty), no shared map/slice backing array/struct pointer (stopping at constraints below the root, addresses, cty), mutation probes both ways; a struct field the generator cannot populate is reported; non-trivial = value has at least one mutable container", depth),
 		Assumptions:  []string{"nil elements inside Tuple.Elems / OneOf / ObjectAttributes are not generated (not schema values the package accepts)", "nil receivers only for Copy() methods that test for nil"},
 		BiteCounters: []string{"values", "containers_compared", "mutations"},
 	})
